@@ -28,6 +28,9 @@ pub fn string_bytes(s: &String) -> (r: &[u8]) ensures r@ == utf8(s@) { s.as_byte
 /// `String::len()`: the byte length
 #[verifier::external_body]
 pub fn string_len(s: &String) -> (r: usize) ensures r == utf8(s@).len() { s.len() }
+/// `s.chars().count()`: the number of characters, which is NOT the byte length unless the text is ASCII
+#[verifier::external_body]
+pub fn string_chars(s: &String) -> (r: usize) ensures r == s@.len() { s.chars().count() }
 #[allow(non_camel_case_types)]
 pub enum Magic { MAGIC_NUMBER_NEWASCII, MAGIC_NUMBER_NEWCRC, STRIPPED_CPIO_MAGIC_NUMBER }
 pub uninterp spec fn magic_seq(m: Magic) -> Seq<u8>;
@@ -69,7 +72,8 @@ impl Builder {
 '''),
     Fn(PAY, 'into_header', impl='impl Builder',
        subs=[ret(), ('header.extend(self.name.as_bytes());', 'header.extend_from_slice(string_bytes(&self.name));', 1, 'A-UTF8'), HEX, EXTB, MAGIC, PADX,
-             ('self.name.len() + 1', 'string_len(&self.name) + 1', 1, 'A-UTF8: byte length'),
+             (re.compile(r'\bself\.name\.len\(\)'), 'string_len(&self.name)', None, 'A-UTF8: byte length'),
+             (re.compile(r'\bself\.name\.chars\(\)\.count\(\)'), 'string_chars(&self.name)', None, 'A-UTF8: number of characters (not bytes)'),
              ('Vec::with_capacity(HEADER_LEN)', 'Vec::<u8>::with_capacity(HEADER_LEN)', 1, 'R9-type-annotation'),
              ],
        spec='''    requires utf8(self.name@).len() < 0xffff_ffff,      // the name length field has eight digits
